@@ -25,7 +25,10 @@ namespace ref {
 #define REF_MAXT 4
 #endif
 constexpr int MAXR = REF_MAXR;   // user rules (capacities can be raised per translation unit with -DREF_MAX...)
-constexpr int MAXL = 5;   // right-side length
+#ifndef REF_MAXL
+#define REF_MAXL 5
+#endif
+constexpr int MAXL = REF_MAXL;   // right-side length
 constexpr int MAXNT = REF_MAXNT;  // user nonterminals
 constexpr int MAXT = REF_MAXT;   // user terminals
 constexpr int TERM = 16;  // symbol code of terminal 0; nonterminal k has code k (k == NT is the augmented root)
@@ -47,6 +50,7 @@ struct Gram {
     static bool is_term(int s) { return s >= TERM; }
     static int term_of(int s) { return s - TERM; }
     void finish() {               // install the augmented root rule as rule R
+        for (int i = 0; i < R; ++i) if (n[i] > MAXL) { std::fprintf(stderr, "HARNESS ERROR: rule longer than REF_MAXL\n"); std::abort(); }
         if (NT > MAXNT || T > MAXT || R > MAXR) { std::fprintf(stderr, "HARNESS ERROR: reference grammar exceeds REF_MAX* capacities\n"); std::abort(); }
         lhs[R] = NT; n[R] = 1; rhs[R][0] = 0; rprec[R] = 0;
         tprec[eof()] = tprec[err()] = 0; tassoc[eof()] = tassoc[err()] = NONE;
